@@ -137,11 +137,11 @@ def declare3(S: Spec):
          requires=[], ensures=[], raises={"Exception": []},
          modifies=["values(self.operator_states)", "values(self.state_counts)"],
          variants={f"{MRS}:PipelineRuntimeStatus.check_transition": f"{MRS}:PipelineRuntimeStatus.check_transition#pure"})
-    S.fn(f"{MP}:Pipeline.runtime_status#any", returns=Ref("PipelineRuntimeStatus"),
+    S.fn(f"{MP}:Pipeline.runtime_status#any", owners=["C16", "C12", "C08"], returns=Ref("PipelineRuntimeStatus"),
          requires=[], ensures=["result is not None"], raises={"Exception": []},
          modifies=["self._runtime_status"], allocates=True,
-         note="assumed frame of the lazy creation: writes only self._runtime_status and the objects it creates")
-    S.fns[f"{MP}:Pipeline.runtime_status#any"].trusted = True
+         note="frame of the lazy creation, verified on the real method: writes only self._runtime_status and the objects it creates "
+              "(against the assumed summary of PipelineRuntimeStatus.__init__, contracts/simstats.py)")
     S.fn(f"{MA}:Assignment.__init__#shape", owners=["C16"],
          params={"ops": List(Ref("Operator")), "cpu": REAL, "ram": REAL, "priority": Enum("Priority"), "pool_id": INT,
                  "pipeline_id": STR, "container_id": Opt(STR), "is_resume": BOOL, "force_run": BOOL},
